@@ -102,6 +102,10 @@ pub open spec fn pb_dur_ok(p: prost_types::Duration) -> bool { 0 <= p.seconds &&
 // A-std-string-02: str::to_string / to_owned copy the text; comparing two &str compares their text
 #[verifier::external_body]
 pub fn verif_str_eq(a: &str, b: &str) -> (r: bool) ensures r == (a@ == b@) { a == b }
+// A-core-25: Option::filter keeps the value exactly when the predicate answers true for it
+pub assume_specification<T, P: FnOnce(&T) -> bool>[ Option::<T>::filter ](o: Option<T>, f: P) -> (r: Option<T>)
+    requires o matches Some(x) ==> f.requires((&x,)),
+    ensures o is None ==> r is None, r matches Some(y) ==> o == Some(y), o matches Some(x) ==> (r is Some <==> f.ensures((&x,), true));
 // A-core-24: Result::unwrap_or: the value, or the given default
 pub assume_specification<T, E>[ Result::<T, E>::unwrap_or ](res: Result<T, E>, d: T) -> (r: T)
     ensures res matches Ok(t) ==> r == t, res is Err ==> r == d;
@@ -564,6 +568,13 @@ def build():
                 u._emit(hdr + ' {'); u._open_header = hdr + ' {'
                 u.fn(F, 'from', within=hdr, display='%s::from<%s>' % (b, a), ensures=ens)
                 u.close('}')
+        # is_empty ("carries nothing") is not part of C20; it is put under contract (obligations tagged `aux`, never reported for
+        # C20) so that an edit of /repo that calls it stays decidable
+        def empt(fld, kind):
+            return {'dur': 'self.%s is None'}.get(kind, 'self.%s@.len() == 0') % fld
+        u._emit('impl %s {' % k); u._open_header = 'impl %s {' % k
+        u.fn(F, 'is_empty', within='impl %s' % k, props=['aux'], ensures=[Clause('I1_empty_means_every_field_is_empty', 'r == (%s)' % ' && '.join(empt(fl, kd) for fl, kd in lay), ['aux'])])
+        u.close('}')
         hdr = 'impl IntoAny for %s' % k
         u._emit(hdr + ' {'); u._open_header = hdr + ' {'
         u.fn(F, 'into_any', within=hdr, body_start='        broadcast use axiom_pb_roundtrip;', ensures=[
@@ -589,7 +600,10 @@ def build():
         t.sub_code('R12', r'impl IntoIterator<Item = ErrorDetail>', 'Vec<ErrorDetail>')
     u.item(MOD, 'trait', 'StatusExt', edits=[vec_param])
     u._emit('impl crate::sealed::Sealed for tonic::Status {}')
-    from vxlib import r27_str_const_match
+    from vxlib import r27_str_const_match, r23_continue_guard
+    def r23_if_present(t):
+        if re.search(r'\bcontinue\b', t.t):
+            r23_continue_guard(t)
     PARSE = 'pb_parse::<pb::Status>(%s.details@)'
     def envelope(src_details, who='r'):
         P = PARSE % who
@@ -598,7 +612,7 @@ def build():
                 Clause('E2_one_any_per_detail_in_order_each_of_its_kind_and_decoding_to_its_value',
                        '%s matches Some(st) && anys_hold(st.details@, %s)' % (P, src_details))]
     SEQINV = ['it.seq().len() == self.details@.len()', 'forall|i: int| 0 <= i < it.seq().len() ==> *(#[trigger] it.seq()[i]) == self.details@[i]']
-    STEP = '            proof { lemma_dec_step(self.details@, it.index@ as int); lemma_dec_none_extends(self.details@, it.index@ + 1); }'
+    STEP = '            proof { lemma_urls_distinct(); lemma_dec_step(self.details@, it.index@ as int); lemma_dec_none_extends(self.details@, it.index@ + 1); }'
     FULL = '        proof { assert(self.details@.take(self.details@.len() as int) =~= self.details@); }'
     FIRST = 'if verif_str_eq(any.type_url.as_str(),'
     def set_contract(S):   # S: the Seq<Any> that is read
@@ -612,9 +626,12 @@ def build():
         return 'lemma_holds_step(c%d, conv_details@, set_details_upto(d0, %d), opt_detail(d0, %d)); ' % (i, i, i)
     def before_if(i):
         first = 'lemma_holds_empty(); assert(conv_details@ =~= Seq::<Any>::empty()); ' if i == 0 else step(i - 1)
-        return '        proof { %s}\n        let ghost c%d = conv_details@;' % (first, i)
-    u.fn(MOD, 'with_error_details_and_metadata', within=hdr, body_start='        let ghost d0 = details;',
-         hints=[('before', 'if let Some(%s) = details.%s' % (names[i], names[i]), before_if(i)) for i in range(10)] +
+        return '        proof { %sc%d = conv_details@; }' % (first, i)
+    # the ghost snapshots c0..c9 are declared at the top of the body so that a hint that ends up in another scope (an edit of
+    # /repo that nests or reorders the ifs) still compiles and simply fails to prove
+    u.fn(MOD, 'with_error_details_and_metadata', within=hdr,
+         body_start='        let ghost d0 = details; ' + ' '.join('let ghost mut c%d = Seq::<Any>::empty();' % i for i in range(10)),
+         hints=[('before', '= details.%s' % names[i], before_if(i)) for i in range(10)] +
                [('before', 'let details = gen_details_bytes', '        proof { %s}' % step(9))],
          ensures=[
         Clause('W1_code_and_metadata_are_the_given_ones', 'r.code == code && r.metadata == metadata')] + envelope('set_details(details)'))
@@ -674,7 +691,7 @@ def build():
         Clause('GV1_decodable_details_give_the_list', '%s ==> (%s)' % (VEC_P[0], VEC_P[1].replace('dvs(d@)', 'dvs(r@)'))),
         Clause('GV2_undecodable_details_give_the_empty_list', '!(%s) ==> r@.len() == 0' % VEC_P[0])])
     for i, (k, _, _) in enumerate(KINDS):
-        u.fn(MOD, 'get_details_' + FIELD_OF[k], within=hdr, body_start='        broadcast use lemma_dv_same;',
+        u.fn(MOD, 'get_details_' + FIELD_OF[k], within=hdr, body_start='        broadcast use lemma_dv_same;', body_edits=[r23_if_present],
              loops={0: dict(iter='it', invariant=SEQINV + ['first_ok(self.details@, %d, 0) == first_ok(self.details@, %d, it.index@ as int)' % (i, i)])},
              ensures=getter(i, 'self.details@'))
     u.close('}')
